@@ -75,6 +75,14 @@ def make(case):
             keys = [k for k in set(szi) | set(szc) if szi.get(k, 0) != 0 or szc.get(k, 0) != 0]
             ctx.check("equal recorded sizes", R.And(*[szi.get(k) == szc.get(k) for k in sorted(keys)]) if keys else True,
                       f"{szi} vs {szc}")
+            if based == "any" and not H.has_kind(T, ("leb",)) and not _has_eof(T):
+                # written back at the same (arbitrary) stream position, the value takes as many bytes as parsing consumed there
+                try:
+                    out = ctx.based_stream([], p)
+                    vi.write(out)
+                    ctx.check("written at the same position: as many bytes as parsing consumed", out.tell() == ti, f"{H.show(out.tell())} vs {H.show(ti)}")
+                except Exception as e:  # noqa: BLE001
+                    ctx.check("written at the same position: parsed value can be written", False, H.classify(e))
             if "inner_align" in cfg and not based and not H.has_kind(T, ("leb",)) and not _has_eof(T):
                 # mixed alignment modes at offset 0: the writer pads like the readers skip (a nested aligned structure starts at an
                 # offset inside the dump that need not be a multiple of its alignment)
